@@ -841,6 +841,135 @@ theorem C05_sig_shape (sig : List Param) (h : sigOK sig true = true) :
         intro q hq
         exact ⟨hrest q hq, hr0 q hq, hr1 q hq⟩
 
+/-! ### wave-5 follow-up: the anchor points as binary64 values
+
+  `get_geometry_point` is tied symbolically to `pointAt` under ordered-field semantics, where
+  `start + 1 * (end - start)` *is* `end`.  In binary64 it is not: a corner obtained by arithmetic can
+  land one ulp outside the bounds.  The statements below say what survives rounding: corner and
+  edge components are selections of the bounds (no arithmetic, hence exact for every float), a
+  midpoint component is one rounding of `(a + b) / 2` and stays inside `[a, b]` for *every* monotone
+  rounding function that leaves the two bounds alone.  `holdsAnchor` is the executable form the
+  harness evaluates on the observed floats (`holds_anchor`). -/
+
+/-- the table with the two midpoints as parameters: corner and edge components are the bounds
+    themselves, whatever the midpoint values are -/
+theorem C05_points_selection (mt mf : Rat) (b : Bounds) :
+    pointAtM mt mf "bottom-left" b = .ok (b.st, b.lo) ∧
+    pointAtM mt mf "bottom-right" b = .ok (b.en, b.lo) ∧
+    pointAtM mt mf "top-left" b = .ok (b.st, b.hi) ∧
+    pointAtM mt mf "top-right" b = .ok (b.en, b.hi) ∧
+    pointAtM mt mf "center-left" b = .ok (b.st, mf) ∧
+    pointAtM mt mf "center-right" b = .ok (b.en, mf) ∧
+    pointAtM mt mf "top-center" b = .ok (mt, b.hi) ∧
+    pointAtM mt mf "bottom-center" b = .ok (mt, b.lo) ∧
+    pointAtM mt mf "center" b = .ok (mt, mf) := by
+  refine ⟨?_, ?_, ?_, ?_, ?_, ?_, ?_, ?_, ?_⟩ <;> rfl
+
+/-- with the exact midpoints the parametrised table is the model of `get_geometry_point` -/
+theorem C05_points_exact_mid (lib : String → Pt) (b : Bounds) (pos : String) (hp : pos ∈ boundsPositions) :
+    pointAtM ((b.st + b.en) / 2) ((b.lo + b.hi) / 2) pos b = pointAt lib pos b := by
+  obtain ⟨t1, t2, t3, t4, t5, t6, t7, t8, t9⟩ := C05_points_table lib b
+  obtain ⟨s1, s2, s3, s4, s5, s6, s7, s8, s9⟩ := C05_points_selection ((b.st + b.en) / 2) ((b.lo + b.hi) / 2) b
+  rw [mem_boundsPositions] at hp
+  rcases hp with rfl | rfl | rfl | rfl | rfl | rfl | rfl | rfl | rfl
+  · rw [t1, s1]
+  · rw [t2, s2]
+  · rw [t3, s3]
+  · rw [t4, s4]
+  · rw [t5, s5]
+  · rw [t6, s6]
+  · rw [t7, s7]
+  · rw [t8, s8]
+  · rw [t9, s9]
+
+/-- a monotone rounding function that leaves `a` and `c` alone keeps the midpoint inside `[a, c]` -/
+theorem C05_midpoint_rounded (rnd : Rat → Rat) (hm : ∀ x y, x ≤ y → rnd x ≤ rnd y) (a c : Rat)
+    (fa : rnd a = a) (fc : rnd c = c) (h : a ≤ c) : a ≤ rnd ((a + c) / 2) ∧ rnd ((a + c) / 2) ≤ c := by
+  have h1 : a ≤ (a + c) / 2 := by grind
+  have h2 : (a + c) / 2 ≤ c := by grind
+  have := hm _ _ h1
+  have := hm _ _ h2
+  constructor
+  · rw [fa] at *; assumption
+  · rw [fc] at *; assumption
+
+/-- **float level**: for every rounding function `rnd` that is monotone and leaves the four bounds
+    alone (they are binary64 values), the nine positions evaluated with rounded midpoints
+    `rnd ((a + b) / 2)` exist and lie inside the bounds -- the corner and edge components because they
+    are the bounds (`C05_points_selection`), the midpoints by monotonicity.  (An implementation that
+    obtains a corner by arithmetic, `start + 1.0 * (end - start)`, is not of this form and does leave
+    the bounds by an ulp.) -/
+theorem C05_points_rounded (rnd : Rat → Rat) (hm : ∀ x y, x ≤ y → rnd x ≤ rnd y) (b : Bounds) (pos : String)
+    (f1 : rnd b.st = b.st) (f2 : rnd b.en = b.en) (f3 : rnd b.lo = b.lo) (f4 : rnd b.hi = b.hi)
+    (h1 : b.st ≤ b.en) (h2 : b.lo ≤ b.hi) (hp : pos ∈ boundsPositions) :
+    ∃ p, pointAtM (rnd ((b.st + b.en) / 2)) (rnd ((b.lo + b.hi) / 2)) pos b = .ok p ∧ inside b p = true := by
+  obtain ⟨s1, s2, s3, s4, s5, s6, s7, s8, s9⟩ :=
+    C05_points_selection (rnd ((b.st + b.en) / 2)) (rnd ((b.lo + b.hi) / 2)) b
+  obtain ⟨m1, m2⟩ := C05_midpoint_rounded rnd hm b.st b.en f1 f2 h1
+  obtain ⟨m3, m4⟩ := C05_midpoint_rounded rnd hm b.lo b.hi f3 f4 h2
+  rw [mem_boundsPositions] at hp
+  rcases hp with rfl | rfl | rfl | rfl | rfl | rfl | rfl | rfl | rfl
+  · exact ⟨_, s1, by simp [inside]; grind⟩
+  · exact ⟨_, s2, by simp [inside]; grind⟩
+  · exact ⟨_, s3, by simp [inside]; grind⟩
+  · exact ⟨_, s4, by simp [inside]; grind⟩
+  · exact ⟨_, s5, by simp [inside]; grind⟩
+  · exact ⟨_, s6, by simp [inside]; grind⟩
+  · exact ⟨_, s7, by simp [inside]; grind⟩
+  · exact ⟨_, s8, by simp [inside]; grind⟩
+  · exact ⟨_, s9, by simp [inside]; grind⟩
+
+/-- what the monitor `holdsAnchor` accepts: only points inside the bounds whose corner / edge
+    components are the bounds themselves (bit for bit, the values are compared exactly) -/
+theorem C05_anchor_holds_sound (tol : Rat) (b : Bounds) (pos : String) (p : Pt)
+    (h : holdsAnchor tol b pos p = true) :
+    pos ∈ boundsPositions ∧ inside b p = true ∧ pointAtM p.1 p.2 pos b = .ok p ∧
+    (pos = "bottom-left" → p = (b.st, b.lo)) ∧ (pos = "bottom-right" → p = (b.en, b.lo)) ∧
+    (pos = "top-left" → p = (b.st, b.hi)) ∧ (pos = "top-right" → p = (b.en, b.hi)) ∧
+    (pos = "center-left" ∨ pos = "center-right" → nearMid tol b.lo b.hi p.2 = true) ∧
+    (pos = "top-center" ∨ pos = "bottom-center" → nearMid tol b.st b.en p.1 = true) ∧
+    (pos = "center" → nearMid tol b.st b.en p.1 = true ∧ nearMid tol b.lo b.hi p.2 = true) := by
+  simp only [holdsAnchor, Bool.and_eq_true, decide_eq_true_eq, Bool.or_eq_true, Bool.not_eq_true'] at h
+  obtain ⟨⟨⟨⟨hp, hin⟩, hsel⟩, ht⟩, hf⟩ := h
+  have hsel' : pointAtM p.1 p.2 pos b = .ok p := by
+    revert hsel
+    cases pointAtM p.1 p.2 pos b with
+    | ok q => intro hq; simp at hq; rw [hq]
+    | error e => intro hq; simp at hq
+  obtain ⟨s1, s2, s3, s4, _, _, _, _, _⟩ := C05_points_selection p.1 p.2 b
+  refine ⟨hp, hin, hsel', ?_, ?_, ?_, ?_, ?_, ?_, ?_⟩
+  · rintro rfl; rw [s1] at hsel'; exact (Except.ok.inj hsel').symm
+  · rintro rfl; rw [s2] at hsel'; exact (Except.ok.inj hsel').symm
+  · rintro rfl; rw [s3] at hsel'; exact (Except.ok.inj hsel').symm
+  · rintro rfl; rw [s4] at hsel'; exact (Except.ok.inj hsel').symm
+  · rintro (rfl | rfl) <;> simpa [freqIsMid] using hf
+  · rintro (rfl | rfl) <;> simpa [timeIsMid] using ht
+  · rintro rfl; exact ⟨by simpa [timeIsMid] using ht, by simpa [freqIsMid] using hf⟩
+
+/-- the model's own answer passes the monitor (`∀ x, holds x (model x)`): the monitor demands
+    nothing the property does not state -/
+theorem C05_anchor_holds_model (lib : String → Pt) (tol : Rat) (b : Bounds) (pos : String) (p : Pt)
+    (ht : 0 ≤ tol) (h1 : b.st ≤ b.en) (h2 : b.lo ≤ b.hi) (hp : pos ∈ boundsPositions)
+    (hm : pointAt lib pos b = .ok p) : holdsAnchor tol b pos p = true := by
+  obtain ⟨q, hq, hin⟩ := C05_points_inside lib b pos h1 h2 hp
+  rw [hm] at hq; cases hq
+  have n1 := nearMid_exact tol b.st b.en ht h1
+  have n2 := nearMid_exact tol b.lo b.hi ht h2
+  obtain ⟨t1, t2, t3, t4, t5, t6, t7, t8, t9⟩ := C05_points_table lib b
+  have hp' := hp
+  rw [mem_boundsPositions] at hp
+  obtain ⟨s1, s2, s3, s4, s5, s6, s7, s8, s9⟩ := C05_points_selection p.1 p.2 b
+  rcases hp with rfl | rfl | rfl | rfl | rfl | rfl | rfl | rfl | rfl
+  · rw [t1] at hm; cases hm; simp [holdsAnchor, hp', hin, s1, timeIsMid, freqIsMid]
+  · rw [t2] at hm; cases hm; simp [holdsAnchor, hp', hin, s2, timeIsMid, freqIsMid]
+  · rw [t3] at hm; cases hm; simp [holdsAnchor, hp', hin, s3, timeIsMid, freqIsMid]
+  · rw [t4] at hm; cases hm; simp [holdsAnchor, hp', hin, s4, timeIsMid, freqIsMid]
+  · rw [t5] at hm; cases hm; simp [holdsAnchor, hp', hin, s5, timeIsMid, freqIsMid, n2]
+  · rw [t6] at hm; cases hm; simp [holdsAnchor, hp', hin, s6, timeIsMid, freqIsMid, n2]
+  · rw [t7] at hm; cases hm; simp [holdsAnchor, hp', hin, s7, timeIsMid, freqIsMid, n1]
+  · rw [t8] at hm; cases hm; simp [holdsAnchor, hp', hin, s8, timeIsMid, freqIsMid, n1]
+  · rw [t9] at hm; cases hm; simp [holdsAnchor, hp', hin, s9, timeIsMid, freqIsMid, n1, n2]
+
 -- non-vacuity of the follow-up additions
 example : sigOK [⟨"geometry", none⟩, ⟨"position", some "bottom-left"⟩] true = true := by decide
 example : sigOK [⟨"geom", none⟩] false = true := by decide
@@ -850,5 +979,24 @@ example : bindCall [⟨"geometry", none⟩, ⟨"position", some "bottom-left"⟩
 example : bindCall [⟨"geometry", none⟩, ⟨"position", some "bottom-left"⟩] ["G"] [("where", "center")] = none := by decide
 example : runHist (fun _ _ => (0, 0)) none [.set (.timeStamp 3), .query .features, .poison 0, .set (.timeStamp 3), .query .features]
     = [.ok (.features [("duration", 0)]), .ok (.features [("duration", 0)])] := by decide +kernel
+
+-- non-vacuity of the wave-5 additions; the interval [8.936, 81.492] as binary64 values
+example : holdsAnchor (1 / 2 ^ 50) ⟨1, 2, 3, 5⟩ "top-right" (3, 5) = true := by decide +kernel
+example : holdsAnchor (1 / 2 ^ 50) ⟨1, 2, 3, 5⟩ "top-right" (3 + 1 / 2 ^ 51, 5) = false := by decide +kernel
+example : holdsAnchor (1 / 2 ^ 50) ⟨1, 2, 3, 5⟩ "top-center" (2, 5) = true := by decide +kernel
+example : holdsAnchor (1 / 2 ^ 50) ⟨1, 2, 3, 5⟩ "top-center" (2 + 1 / 2 ^ 40, 5) = false := by decide +kernel
+example : holdsAnchor (1 / 2 ^ 50) ⟨3, 2, 3, 5⟩ "top-center" (3 + 1 / 2 ^ 51, 5) = false := by decide +kernel
+-- `start + 1.0 * (end - start)` in binary64: one ulp above `end`
+example : holdsAnchor (1 / 2 ^ 50) ⟨1257630195943211 / 140737488355328, 0, 5734489700526195 / 70368744177664, MAXF⟩
+    "top-right" (1433622425131549 / 17592186044416, MAXF) = false := by decide +kernel
+-- `(start + end) / 2` and `start + 0.5 * (end - start)` in binary64: both acceptable midpoints
+example : holdsAnchor (1 / 2 ^ 50) ⟨1257630195943211 / 140737488355328, 0, 5734489700526195 / 70368744177664, MAXF⟩
+    "top-center" (795413099812225 / 17592186044416, MAXF) = true := by decide +kernel
+example : holdsAnchor (1 / 2 ^ 50) ⟨1257630195943211 / 140737488355328, 0, 5734489700526195 / 70368744177664, MAXF⟩
+    "top-center" (6363304798497801 / 140737488355328, MAXF) = true := by decide +kernel
+example : ∃ p, pointAtM (id ((1 + 3 : Rat) / 2)) (id ((2 + 5 : Rat) / 2)) "center-right" ⟨1, 2, 3, 5⟩ = .ok p ∧
+    inside ⟨1, 2, 3, 5⟩ p = true :=
+  C05_points_rounded id (fun _ _ h => h) ⟨1, 2, 3, 5⟩ "center-right" rfl rfl rfl rfl (by decide +kernel)
+    (by decide +kernel) (by decide)
 
 end SE.Proofs.C05
